@@ -290,6 +290,18 @@ func (c *fsClient) exitChecks(x *Exec, st *State, entry string, fn *ssa.Function
 			c.okay("FAIL-NO-EFFECT", entry+" / exits", "no unlisted new table left behind")
 		}
 	}
+	// STALE-NO-RESIDUE: a write refused with ErrLockFailure leaves the directory unchanged
+	if errv != nil && errv.Op == "gval" && errv.Aux == "ErrLockFailure" {
+		if len(g.held) > 0 || len(g.tmps) > 0 || len(g.inplace) > 0 {
+			what := "a temporary file"
+			for _, k := range sortedKeys(g.held) {
+				what = "lock file " + c.kind(st, g.held[k])
+			}
+			c.violate(st, "STALE-NO-RESIDUE", entry+" / refused write leaves files behind", pos, "the operation returns ErrLockFailure but leaves "+what+" in the directory: the directory is changed and the retry (and every other writer) fails")
+		} else {
+			c.okay("STALE-NO-RESIDUE", entry+" / ErrLockFailure exits", "nothing is owned when ErrLockFailure is returned")
+		}
+	}
 	// POST-COMMIT-OK / STALE-RELOAD for Stack.Add
 	if entry == "(*Stack).Add" && errv != nil {
 		if g.isSet("addCommitted") || g.isSet("commitRenamed") {
